@@ -1,4 +1,150 @@
-(* C03 — statements are being added; see DESIGN.md section 7. *)
-From XSG.Model Require Import Strings.
-Example C03_placeholder : True. Proof. exact I. Qed.
-Print Assumptions C03_placeholder.
+(* C03 — exact inference.  For a sequence of documents with one root element each, all roots of
+   the same name (`docs_ok`), and no duplicate attribute on any element (`wf_node`, guaranteed by
+   the XML reader), the tree the parser builds is exactly the tree inferred from the DOM of the
+   inputs: path by path, an attribute / child is Mandatory iff it is present in every occurrence
+   of the parent, a child is single (not a Vec) iff it occurs at most once in every occurrence,
+   text iff some occurrence has character data, and nothing else is in the tree.
+   `infer` (Model/Spec.v) is the executable form the differential check applies to the real
+   implementation (`or_exact` in Corr/CoreCorr.v: `element_eqb (sort_tree e_impl) (infer docs)`).
+   Proofs: Proofs/ExactProofs.v (representation invariant), Proofs/InferProofs.v. *)
+From Coq Require Import String.
+From XSG.Model Require Import Strings Necessity Element Parser Dom Spec Render.
+From XSG.Proofs Require Import ElementProofs SpecProofs ReprDefs ExactProofs InferProofs.
+Local Open Scope nat_scope.
+
+(* the representation invariant of the document-level parser *)
+Theorem C03_representation : forall docs m,
+  docs <> [] -> Forall (Forall wf_node) docs -> Forall (fun p => elem_names p = [m]) docs ->
+  exists e, run_dom docs = Some e /\ DocsInv e m docs.
+Proof. exact run_dom_inv. Qed.
+
+(* a represented element, children in position order, is the inferred element *)
+Theorem C03_sort_tree_infer : forall e os fuel,
+  Repr e os -> dmax os <= fuel -> echildren (sort_tree e) = infer_kids fuel os.
+Proof. exact Repr_sort_tree_infer. Qed.
+
+(* main theorem: the oracle of the differential check holds of the model *)
+Theorem C03_exact_dom : forall docs,
+  docs_ok docs = true -> Forall (Forall wf_node) docs ->
+  exists e, run_dom docs = Some e /\ infer docs = Some (sort_tree e).
+Proof. exact InferProofs.C03_exact_dom. Qed.
+
+(* the same for the event-level parser (the one tied to the code) *)
+Theorem C03_exact_events : forall docs,
+  docs_ok docs = true -> Forall (Forall wf_node) docs ->
+  exists e, run_evs (map events_of_forest docs) = Ok e /\ infer docs = Some (sort_tree e).
+Proof. exact InferProofs.C03_exact_events. Qed.
+
+(* the hypothesis `run_dom docs = Some e` below can be read at event level *)
+Theorem C03_events_dom : forall docs e,
+  run_evs (map events_of_forest docs) = Ok e <-> run_dom docs = Some e.
+Proof. exact run_evs_run_dom. Qed.
+
+(* ---- path-indexed reading: x = the tree node at path p, os = the occurrences of that path ---- *)
+Theorem C03_node_exists : forall docs e,
+  docs_ok docs = true -> Forall (Forall wf_node) docs -> run_dom docs = Some e ->
+  forall p, node_at e p <> None <-> occs p (doc_roots docs) <> [].
+Proof. exact C03_node_exists_l. Qed.
+
+Theorem C03_attrs_exact : forall docs e,
+  docs_ok docs = true -> Forall (Forall wf_node) docs -> run_dom docs = Some e ->
+  forall p x, node_at e p = Some x ->
+  eattrs (snd x) = spec_attrs (occs p (doc_roots docs))
+  /\ map snd (eattrs (snd x)) = dedup (flat_map oattrs (occs p (doc_roots docs)))
+  /\ (forall t a, In (t, a) (eattrs (snd x)) ->
+        (t = Mand <-> forall o, In o (occs p (doc_roots docs)) -> In a (oattrs o))).
+Proof. exact C03_attrs_exact_l. Qed.
+
+Theorem C03_children_exact : forall docs e,
+  docs_ok docs = true -> Forall (Forall wf_node) docs -> run_dom docs = Some e ->
+  forall p x, node_at e p = Some x ->
+  NoDup (child_names (echildren (snd x)))
+  /\ (forall n, get_child (echildren (snd x)) n <> None
+                <-> In n (flat_map okidnames (occs p (doc_roots docs))))
+  /\ (forall n, node_at e (p ++ [n]) = get_child (echildren (snd x)) n)
+  /\ (forall n c, get_child (echildren (snd x)) n = Some c ->
+        ename (snd c) = n /\ Repr (snd c) (occs (p ++ [n]) (doc_roots docs))).
+Proof. exact C03_children_exact_l. Qed.
+
+Theorem C03_optional_iff : forall docs e,
+  docs_ok docs = true -> Forall (Forall wf_node) docs -> run_dom docs = Some e ->
+  forall p x, node_at e p = Some x ->
+  forall n c, get_child (echildren (snd x)) n = Some c ->
+  (fst c = Mand <-> forall o, In o (occs p (doc_roots docs)) -> kids_named n o <> []).
+Proof. exact C03_optional_iff_l. Qed.
+
+Theorem C03_vec_iff : forall docs e,
+  docs_ok docs = true -> Forall (Forall wf_node) docs -> run_dom docs = Some e ->
+  forall p x, node_at e p = Some x ->
+  forall n c, get_child (echildren (snd x)) n = Some c ->
+  (estandalone (snd c) = true
+   <-> forall o, In o (occs p (doc_roots docs)) -> List.length (kids_named n o) <= 1).
+Proof. exact C03_vec_iff_l. Qed.
+
+Theorem C03_text_iff : forall docs e,
+  docs_ok docs = true -> Forall (Forall wf_node) docs -> run_dom docs = Some e ->
+  forall p x, node_at e p = Some x ->
+  (etext (snd x) = true <-> exists o, In o (occs p (doc_roots docs)) /\ has_text o = true).
+Proof. exact C03_text_iff_l. Qed.
+
+Theorem C03_count_exact : forall docs e,
+  docs_ok docs = true -> Forall (Forall wf_node) docs -> run_dom docs = Some e ->
+  forall p x, node_at e p = Some x ->
+  ecount (snd x) = N.of_nat (List.length (occs p (doc_roots docs))).
+Proof. exact C03_count_exact_l. Qed.
+
+(* occurrences of a longer path = the kids of that name of the occurrences of the prefix *)
+Theorem C03_occs_step : forall p n cur, occs (p ++ [n]) cur = flat_map (kids_named n) (occs p cur).
+Proof. exact occs_snoc. Qed.
+
+(* ---- non-vacuity: <r a b><x/><y>text</y><x k/></r> then <r b c><y/><z><w/></z><x/></r> ---- *)
+Example C03_example_hyps : docs_ok ex_docs = true /\ Forall (Forall wf_node) ex_docs.
+Proof. exact ex_docs_hyps. Qed.
+
+Example C03_example_exact :
+  exists e, run_dom ex_docs = Some e /\ infer ex_docs = Some (sort_tree e)
+    /\ map cname (echildren e) = [s "y"; s "x"; s "z"]
+    /\ map (fun c => (fst c, cname c, estandalone (snd c), ecount (snd c), etext (snd c)))
+           (echildren (sort_tree e))
+       = [ (Mand, s "x", false, 3%N, false); (Mand, s "y", true, 2%N, true); (Opt, s "z", true, 1%N, false) ]
+    /\ eattrs e = [ (Opt, s "a"); (Mand, s "b"); (Opt, s "c") ].
+Proof. exact ex_exact. Qed.
+
+Example C03_example_events :
+  exists e, run_evs (map events_of_forest ex_docs) = Ok e /\ infer ex_docs = Some (sort_tree e).
+Proof. exact ex_exact_events. Qed.
+
+Example C03_example_paths :
+  exists e, run_dom ex_docs = Some e
+    /\ (exists x, node_at e [s "z"; s "w"] = Some x /\ fst x = Mand /\ ecount (snd x) = 1%N)
+    /\ occs [s "z"; s "w"] (doc_roots ex_docs) = [NElem (s "w") true [] []]
+    /\ List.length (occs [s "x"] (doc_roots ex_docs)) = 3
+    /\ node_at e [s "q"] = None /\ occs [s "q"] (doc_roots ex_docs) = [].
+Proof. exact ex_paths. Qed.
+
+(* `docs_ok` cannot be dropped: roots of different names *)
+Example C03_example_not_ok :
+  let docs := [[NElem (s "r") true [] []]; [NElem (s "q") true [] []]] in
+  docs_ok docs = false /\ Forall (Forall wf_node) docs
+  /\ (exists e, run_dom docs = Some e /\ ecount e = 1%N)
+  /\ infer docs <> Some (match run_dom docs with Some e => sort_tree e | None => wrapper end).
+Proof. exact ex_not_ok. Qed.
+
+Print Assumptions C03_representation.
+Print Assumptions C03_sort_tree_infer.
+Print Assumptions C03_exact_dom.
+Print Assumptions C03_exact_events.
+Print Assumptions C03_events_dom.
+Print Assumptions C03_node_exists.
+Print Assumptions C03_attrs_exact.
+Print Assumptions C03_children_exact.
+Print Assumptions C03_optional_iff.
+Print Assumptions C03_vec_iff.
+Print Assumptions C03_text_iff.
+Print Assumptions C03_count_exact.
+Print Assumptions C03_occs_step.
+Print Assumptions C03_example_hyps.
+Print Assumptions C03_example_exact.
+Print Assumptions C03_example_events.
+Print Assumptions C03_example_paths.
+Print Assumptions C03_example_not_ok.
